@@ -1395,7 +1395,7 @@ func runParent(casesPath, outPath string, seed int64, workers int) error {
 	var mu sync.Mutex
 	var results []json.RawMessage
 	var infra []string
-	crashes := 0
+	crashes, skipped := 0, 0
 	var wg sync.WaitGroup
 	// round-robin so that heavy families spread over the children
 	chunks := make([][][]byte, workers)
@@ -1482,12 +1482,12 @@ func runParent(casesPath, outPath string, seed int64, workers int) error {
 				mu.Lock()
 				results = append(results, b)
 				crashes++
-				tooMany := crashes > 40
+				tooMany := crashes > 12
+				if tooMany {
+					skipped += len(rest) // the crash is reported; the remaining cases of this child are not run
+				}
 				mu.Unlock()
 				if tooMany {
-					mu.Lock()
-					infra = append(infra, "more than 40 crashes, giving up on the remaining cases")
-					mu.Unlock()
 					return
 				}
 				todo = rest
@@ -1502,7 +1502,7 @@ func runParent(casesPath, outPath string, seed int64, workers int) error {
 	defer o.Close()
 	bw := bufio.NewWriter(o)
 	defer bw.Flush()
-	hdr, _ := json.Marshal(map[string]any{"cases": len(lines), "results": len(results), "infra": infra, "crashes": crashes})
+	hdr, _ := json.Marshal(map[string]any{"cases": len(lines), "results": len(results), "infra": infra, "crashes": crashes, "skipped_after_crashes": skipped})
 	bw.Write(append(hdr, '\n'))
 	for _, r := range results {
 		bw.Write(append([]byte(r), '\n'))
